@@ -68,11 +68,21 @@ def c19FiberTags (f : FiberIn) : List String :=
    (if u.2.length > (l.filter (· != Lab.L)).length then ["trailB"] else []))
 
 def batchingTag (groups : List (List FiberIn)) : String :=
-  let nf := (groups.map List.length).sum
+  let ne := groups.filter (fun g => !g.isEmpty)
+  let nf := (ne.map List.length).sum
   if nf ≤ 1 then "single-fiber"
-  else if groups.all (fun g => g.length ≤ 1) then "fiber-by-fiber"
-  else if groups.length == 1 then "one-shot"
+  else if ne.all (fun g => g.length ≤ 1) then "fiber-by-fiber"
+  else if ne.length == 1 then "one-shot"
   else "mixed-batching"
+
+/-- calls that receive nothing: before the first intersection, between two, after the last -/
+def emptyCallTags (groups : List (List FiberIn)) : List String :=
+  let lead := (groups.takeWhile List.isEmpty).length
+  let trail := (groups.reverse.takeWhile List.isEmpty).length
+  let total := (groups.filter List.isEmpty).length
+  (if lead > 0 then ["empty-first-call"] else []) ++
+  (if trail > 0 && lead < groups.length then ["empty-last-call"] else []) ++
+  (if total > lead + trail then ["empty-middle-call"] else [])
 
 def c19Dedup (l : List String) : List String := l.foldl (fun acc s => if acc.contains s then acc else acc ++ [s]) []
 
@@ -81,7 +91,7 @@ def handleAnd (j : Json) : Except String Verdict := do
   let dflt := fIntD j "dflt" 0
   let groups ← (← fArr j "groups").mapM (fun g => do (← asList g).mapM (parseFiberIn dflt))
   let fs := groups.flatten
-  if !(fs.all (FiberIn.shapeOk n)) || n == 0 || !(groups.all ascPre) then
+  if !(fs.all (FiberIn.shapeOk n)) || n == 0 || !(groups.all ascPre) || fs.isEmpty then
     return { agree := true, spec := true, tags := ["OUT_OF_MODEL"] }
   let impl ← field j "impl"
   let ib ← (← fArr impl "batches").mapM (fun b => do
@@ -109,7 +119,7 @@ def handleAnd (j : Json) : Except String Verdict := do
                     ("lf0", decide (ilf0 = some (dataRows (·.1) : Int))),
                     ("lf1", decide (ilf1 = some (dataRows (·.2) : Int)))]
   let bad := fun (l : List (String × Bool)) => (l.filter (fun p => !p.2)).map (·.1)
-  let tags := c19Dedup ([batchingTag groups, s!"ranks={n}"] ++ (fs.flatMap c19FiberTags) ++
+  let tags := c19Dedup ([batchingTag groups, s!"ranks={n}"] ++ emptyCallTags groups ++ (fs.flatMap c19FiberTags) ++
     (match dirtyKind' groups with | some k => [k] | none => []) ++
     (if rowsExact then ["rows-exact"] else ["rows-differ-outside-points"]))
   let model := Json.mkObj [("tf", totalJson mtf), ("sa", totalJson msa), ("lf0", jInt mlf0), ("lf1", jInt mlf1),
@@ -125,7 +135,7 @@ def handleLf (j : Json) : Except String Verdict := do
   let dflt := fIntD j "dflt" 0
   let groups ← (← fArr j "groups").mapM (fun g => do (← asList g).mapM (parseFiberIn dflt))
   let fs := groups.flatten
-  if !(fs.all (FiberIn.shapeOk n)) || n == 0 then
+  if !(fs.all (FiberIn.shapeOk n)) || n == 0 || fs.isEmpty then
     return { agree := true, spec := true, tags := ["OUT_OF_MODEL"] }
   let impl ← field j "impl"
   let ib ← (← fArr impl "batches").mapM parseTrace
@@ -133,7 +143,7 @@ def handleLf (j : Json) : Except String Verdict := do
   let ptsAgree := decide (mb.map (traceView n) = ib.map (traceView n))
   let mlf := lfTotal mb
   let ilf := optTotal impl "lf"
-  let tags := c19Dedup ([batchingTag groups, s!"ranks={n}", "leader-follower"] ++
+  let tags := c19Dedup ([batchingTag groups, s!"ranks={n}", "leader-follower"] ++ emptyCallTags groups ++
     (if fs.any (fun f => f.a.isEmpty) then ["emptyA"] else []) ++
     (if decide (mb = ib) then ["rows-exact"] else ["rows-differ-outside-points"]))
   pure { agree := ptsAgree && decide (some mlf = ilf), spec := decide (ilf = some (lfSpecAll fs : Int)),
